@@ -79,6 +79,16 @@ func c13Analyze(nfiles int, makefileBytes int, scripts int) {
 	verifAssert(ctx.HasGit == ctx2.HasGit && ctx.HasDocker == ctx2.HasDocker && ctx.Language == ctx2.Language && ctx.BuildSystem == ctx2.BuildSystem,
 		"C13: analysing the same listing twice gives the same flags")
 	verifAssert(len(ctx.MakeTargets) == len(ctx2.MakeTargets), "C13: analysing the same listing twice gives the same make targets")
+	// the boosts derived from the listing: the same whatever order any map is walked in
+	b1 := ctx.GetContextBoosts()
+	verifMapOrder(3)
+	b2 := ctx2.GetContextBoosts()
+	verifMapOrder(1)
+	verifAssert(len(b1) == len(b2), "C13: analysing the same listing twice gives the same boosts (count)")
+	for w, f := range b1 {
+		g, ok := b2[w]
+		verifAssert(ok && g == f, "C13: analysing the same listing twice gives the same boosts")
+	}
 	verifReach("analysed")
 }
 
